@@ -76,7 +76,11 @@ TsigFails(r, rs, e) ==
 RespFails(r, e) ==
   LET rs == DecodeMessage(r.resp)
       rq == r.req IN
-  IF ~rs.ok THEN {"C02"}
+  \* a response that does not decode is C02's; if the octets after the header are not even the request's question
+  \* although the header says QDCOUNT = 1, it is also a failure to echo the question (C03)
+  IF ~rs.ok THEN {"C02"} \cup (IF e.qecho /\ Len(r.resp) >= 12 /\ U16(r.resp, 4) = 1
+                                   /\ ~(Len(r.resp) >= 12 + Len(QEcho(rq)) /\ SubSeq(r.resp, 13, 12 + Len(QEcho(rq))) = QEcho(rq))
+                                THEN {"C03"} ELSE {})
   ELSE
   LET tc == Bit(rs.flags, 512) = 1
       aa == Bit(rs.flags, 1024) = 1
@@ -96,7 +100,8 @@ RespFails(r, e) ==
                      /\ Bit(rs.flags, 128) = 0 /\ (rs.flags \div 16) % 8 = 0
                      /\ (e.qecho => (rs.qd = 1 /\ rs.qsec = QEcho(rq)))
                      /\ (~e.qecho => rs.qd = 0))
-     \cup Chk("C09", /\ Len(Opts(rs.ar)) = (IF e.edns THEN 1 ELSE 0)
+     \cup Chk("C09", /\ (extr = 16) = (e.rcode = 16)            \* BADVERS exactly when the specification prescribes it
+                     /\ Len(Opts(rs.ar)) = (IF e.edns THEN 1 ELSE 0)
                      /\ (e.edns => LET o == Opts(rs.ar)[1] IN
                                    o.owner = <<>> /\ o.class = cfg.payload /\ o.ttlhi % 256 = 0 /\ o.ttllo = 0 /\ o.rdata = <<>>))
      \cup TsigFails(r, rs, e)
